@@ -23,10 +23,10 @@ RULE = ('(1) operators {+ - * / ^ & = <> < <= > >=} and array-aware functions (A
         'fill) or (shapes, kind, fill); non-trivial = at least one operand is an array / shapes differ.')
 BUDGET = {'quick': 25, 'thorough': 300}
 FLOORS = {
-    'quick': {'lift_cases': 3000, 'lift_positions': 20000, 'lift_through_workbook': 150, 'fit_cases': 512,
-              'fit_positions': 4000, 'fit_member_cells': 4000, 'fit_after_set_value': 200, 'shape_pairs': 256,
-              'broadcast:row-x-column': 100, 'broadcast:scalar': 300, 'broadcast:row': 200, 'broadcast:column': 200,
-              'elements:error': 300, 'elements:text': 300},
+    'quick': {'lift_cases': 2000, 'lift_positions': 12000, 'lift_through_workbook': 100, 'fit_cases': 512,
+              'fit_positions': 4000, 'fit_member_cells': 4000, 'fit_after_set_value': 400, 'shape_pairs': 256,
+              'broadcast:row-x-column': 80, 'broadcast:scalar': 300, 'broadcast:row': 150, 'broadcast:column': 150,
+              'elements:error': 100, 'elements:text': 300},
     'thorough': {'lift_cases': 150000, 'fit_cases': 12000, 'shape_pairs': 256, 'lift_through_workbook': 5000},
 }
 EXHAUSTIVE = {'quick': False, 'thorough': False}
